@@ -10,7 +10,7 @@ cd /verif
 if [ -n "$(git -C /repo status --porcelain --untracked-files=no)" ]; then echo "/repo is not clean"; exit 2; fi
 git -C /repo apply "$dir/patch.diff" || { echo "patch does not apply"; exit 2; }
 trap 'git -C /repo checkout -- . ; git -C /repo clean -fdq -- scpi/tests scpi-contrib/tests 2>/dev/null' EXIT
-suite=$(tools/repo_test.sh 2>&1 | tail -1)
+if [ "${SKIP_SUITE:-0}" = 1 ]; then suite="(not re-run here; seed_intake.sh ran it with the change: see meta.json)"; else suite=$(tools/repo_test.sh 2>&1 | tail -1); fi
 ids="$*"
 [ -z "$ids" ] && ids=$(python3 -c "import json; print(' '.join(c['property_id'] for c in json.load(open('MANIFEST.json'))['checks']))")
 res="{\"suite\": \"$suite\", \"tier\": \"$tier\", \"checks\": {"
